@@ -1164,3 +1164,16 @@ Lemma coop_no_access_after_return calls script tfuel fuel :
 Proof.
   eapply no_access_after_return_all. apply drive_reachable.
 Qed.
+
+(* the model's only `left the domain` branch (s_bad: `goto again` after a failed insert of an automatic tag,
+   out-of-order-execution.cpp 82-90) is dead: in every reachable state the next automatic tag is not in the map *)
+Lemma auto_tag_fresh_all :
+  forall calls script es s,
+    run_events (init true calls script) es = Some s -> map_find (s_mtag s + 1) (s_map s) = None.
+Proof.
+  intros calls script es s H.
+  assert (I : Inv s) by (eapply Inv_run; [apply Inv_init|exact H]).
+  destruct (map_find (s_mtag s + 1) (s_map s)) as [c|] eqn:F; [|reflexivity].
+  exfalso. apply map_find_In in F. destruct (i_map _ I _ _ F) as (a & b & _).
+  destruct (i_ctx _ I _ a) as (m & _). pose proof (i_tag0 _ I _ m). lia.
+Qed.
